@@ -47,6 +47,8 @@ pub struct GenCfg {
     pub line_start: u16,
     pub line_step: u16,
     pub irregular: bool,
+    /// move the program up so that its last line is 65529, the highest legal line number
+    pub top_line: bool,
 }
 
 impl GenCfg {
@@ -82,7 +84,16 @@ impl GenCfg {
             line_start: *rng.pick(&[0u16, 1, 5, 10, 10, 10, 100, 1000]),
             line_step: *rng.pick(&[1u16, 2, 5, 10, 10, 10, 20, 100]),
             irregular: rng.pct(30),
+            top_line: false,
         }
+        .with_top_line()
+    }
+
+    /// About 3% of the configurations (derived from draws already made, so that every other program of a
+    /// seed is unchanged) end on line 65529.
+    fn with_top_line(mut self) -> GenCfg {
+        self.top_line = self.line_start == 1000 && self.line_step <= 2;
+        self
     }
 
     /// Everything that makes transcripts depend on the cursor column switched off.
@@ -1792,6 +1803,15 @@ impl<'a> Gen<'a> {
                 self.cfg.line_step as u32
             };
             num += step.max(1);
+        }
+        if self.cfg.top_line && lines.last().map(|l| l.num < 65529).unwrap_or(false) {
+            // about 3% of the programs (no extra draw, so every other program of a seed is unchanged) end on
+            // 65529, the highest legal line number and the neighbour of the pseudo line number that stands for
+            // the direct statement: errors, STOP, TRON and branches there must still name line 65529
+            let shift = 65529 - lines[lines.len() - 1].num;
+            for l in lines.iter_mut() {
+                l.num += shift;
+            }
         }
         if self.cfg.data && (self.cfg.emph == Emph::Data || self.rng.pct(25)) && !self.cfg.tron && !lines.is_empty() {
             // DATA inside a branch that never executes still belongs to the list
